@@ -362,6 +362,7 @@ def include_vs_subninja(ck, ctx):
 
 
 def run(ck, ctx):
+    C.adapter_census(ck, ctx, "eager", ("parse::", "load::", "eval::", "smallmap::"))
     chains(ck, ctx)
     eager(ck, ctx)
     continue_after(ck, ctx)
